@@ -189,6 +189,8 @@ macro_rules! generate_twin {
     fn $name() { check_generate::<$ml, $al>($aux); }
   };
 }
+// NOT REGISTERED: these three do not finish (CBMC fails after ~18 min; decoding the dummy share and the
+// Vec traffic of generate are too heavy).  Kept for reference; Message::generate has no Kani twin.
 generate_twin!(k_generate_no_aux, 2, 0, false);
 generate_twin!(k_generate_empty_aux, 2, 0, true);
 generate_twin!(k_generate_aux, 1, 2, true);
